@@ -15,6 +15,7 @@
      hubCfg, hubPar, hub, batch, hist, wait, legacy      hub contract
      bsei, stsei                    the two cw20 ledgers
      rew, disp, reg                 reward, dispatcher, registry contracts
+     air                            airdrop stubs: [hub, pair] airdrop-token balances, amt handed out per claim
 
    Context `s` threads a transaction: [ok, err, w, fx]; fx is the list of messages dispatched so
    far (depth first, in execution order) — the observable effects of the transaction.          *)
@@ -29,7 +30,8 @@ Accts     == Users \cup {"hub"}                                  \* cw20 account
 BankAccts == Users \cup {"hub", "reward", "dispatcher", "keeper", "swap"}
 Denoms    == {"kusd", "ufor", "usei"}
 DenomSeq  == <<"kusd", "ufor", "usei">>                          \* AllBalances order (by denom)
-Contracts == {"hub", "reward", "dispatcher", "registry", "bsei", "stsei", "swap", "oracle"}
+Contracts == {"hub", "reward", "dispatcher", "registry", "bsei", "stsei", "swap", "oracle",
+              "airdrop", "airdropc", "airtoken", "airpair"}      \* airdrop registry / airdrop contract / airdrop token / pair (stubs)
 
 NoneDec == <<>>            \* Option<Decimal>::None
 NoneInt == -1              \* Option<u64>::None
